@@ -100,7 +100,7 @@ def main():
         ],
         "checks": checks,
         "not_applicable": na,
-        "notes": "exit 0 = all obligations discharged; exit 1 = VIOLATION (counterexample replayed natively); exit 2 = INCONCLUSIVE (timeout/OOM/bound/compile). Fixes of genuine defects: see known_findings.txt.",
+        "notes": "exit 0 = all obligations discharged; exit 1 = VIOLATION (counterexample replayed natively: Kani concrete playback, or the 3x3 grid evaluated by the real crate for engine T); exit 2 = INCONCLUSIVE (timeout/OOM/bound too small/harness no longer compiles/translator and code disagree) - never printed as VIOLATION, never exit 0. A harness that PASSED on byte-identical inputs (crate sources, Cargo.lock, harness text, stubs) is answered from ~/.cache/verif-svgbob/results (evidence marks it verdict_reused_from; VERIF_NO_CACHE=1 disables); any change under crates/svgbob/src invalidates all of it. Five genuine defects of svgbob were found and repaired by unguarded fix: commits (known_findings.txt); there are no KNOWN-FINDING suppressions. Seeded changes and what catches them: seeded/*/meta.json and DESIGN.md 6d.",
     }
     json.dump(man, open(os.path.join(V, "MANIFEST.json"), "w"), indent=1)
     print("wrote MANIFEST.json with %d checks, %d not_applicable" % (len(checks), len(na)))
